@@ -158,6 +158,52 @@ func Thorough(c *core.Ctx, prop string) {
 			}
 		})
 	}
+	switch prop {
+	case "C04":
+		st := c.Rule("T.decode-table-writers", "module-wide: outside amd/insts no code writes a field of insts.InstType or insts.Format through an object it did not allocate (a decoded instruction shares its decode-table row with every other instruction of that opcode)", 0)
+		eachFunc(func(rel string, fn *ssa.Function) {
+			if rel == instsPkg {
+				return
+			}
+			for _, b := range fn.Blocks {
+				for _, in := range b.Instrs {
+					s, ok := in.(*ssa.Store)
+					if !ok {
+						continue
+					}
+					fa, ok := s.Addr.(*ssa.FieldAddr)
+					if !ok {
+						continue
+					}
+					owner := namedTypeName(fa.X.Type())
+					if owner != "insts.InstType" && owner != "insts.Format" {
+						continue
+					}
+					st.Instances++
+					fresh := false
+					base := fa.X
+					for i := 0; i < 4; i++ {
+						switch t := base.(type) {
+						case *ssa.Alloc:
+							fresh = true
+						case *ssa.FieldAddr:
+							base = t.X
+							continue
+						case *ssa.UnOp:
+							base = t.X
+							continue
+						}
+						break
+					}
+					st.Ob(fresh)
+					st.Sample("%s %s writes %s (fresh object: %v)", rel, core.FuncName(fn), owner, fresh)
+					if !fresh {
+						c.ReportAt("T.decode-table-writers", fn, in.Pos(), "table-row-write:"+owner, rel+"."+core.FuncName(fn)+" writes a field of "+owner+" of an object it did not allocate: decode-table rows are shared by all instructions of an opcode")
+					}
+				}
+			}
+		})
+	}
 	// all properties: count what the whole-module load covered
 	nf := 0
 	eachFunc(func(rel string, fn *ssa.Function) { nf++; _ = relOf })
